@@ -557,7 +557,7 @@ def oracle(res, spec, impl, queries, kinds, dirs, splits):
 
 def specs_for(res):
     rng = res.rng
-    per_cfg = 2 if res.tier == "quick" else 18
+    per_cfg = 2 if res.tier == "quick" else 10
     specs = [dict(WITNESS)]
     for ci in range(len(CONFIGS)):
         for i in range(per_cfg):
